@@ -109,6 +109,46 @@ def _value_indices(expr):
     return out, fallback, other
 
 
+def _resolve_local(fn, e, depth=0):
+    """(expression with locals that are bound once replaced by what they name, (ordering call, position) when the value is an
+    element of sorted()/min()/max() over several operands)"""
+    if isinstance(e, ast.Name) and depth < 5:
+        defs = []
+        for n in ast.walk(fn):
+            if isinstance(n, ast.Assign):
+                for t in n.targets:
+                    if isinstance(t, ast.Name) and t.id == e.id:
+                        defs.append((n.value, None))
+                    elif isinstance(t, (ast.Tuple, ast.List)):
+                        for i, x in enumerate(t.elts):
+                            if isinstance(x, ast.Name) and x.id == e.id:
+                                defs.append((n.value, i))
+        if len(defs) == 1:
+            v, pos = defs[0]
+            if pos is None:
+                return _resolve_local(fn, v, depth + 1)
+            if isinstance(v, (ast.Tuple, ast.List)) and pos < len(v.elts):
+                return _resolve_local(fn, v.elts[pos], depth + 1)
+            if isinstance(v, ast.Call) and isinstance(v.func, ast.Name) and v.func.id in ('sorted', 'min', 'max', 'reversed'):
+                return e, (v, pos)
+        return e, None
+    if isinstance(e, ast.BoolOp):
+        vals = []
+        for v in e.values:
+            r, o = _resolve_local(fn, v, depth + 1)
+            if o is not None:
+                return e, o
+            vals.append(r)
+        new = ast.BoolOp(op=e.op, values=[])
+        for r in vals:
+            if isinstance(r, ast.BoolOp) and type(r.op) is type(e.op):
+                new.values.extend(r.values)
+            else:
+                new.values.append(r)
+        return ast.copy_location(new, e), None
+    return e, None
+
+
 def r1(run: Run, src, g):
     fields = cell_field_order(src)
     n_idx = 0
@@ -134,9 +174,20 @@ def r1(run: Run, src, g):
                     run.bad('C02.R1', f'{tname}.{prop}/{which}.{fld}', 'field-missing', f'the {which} cell is built without {fld}',
                             loc=loc_of(fi.module.path, call))
                     continue
-                idxs, fallback, other = _value_indices(args[fld])
                 construct0 = f'{tname}.{prop}/{which}.{fld}'
                 loc = loc_of(fi.module.path, args[fld])
+                operand, ordered = _resolve_local(fi.node, args[fld])
+                if ordered is not None:
+                    call_, pos_ = ordered
+                    keyed = any(k.arg == 'key' for k in call_.keywords)
+                    if fld == 'column' and not keyed:
+                        run.bad('C02.R1', construct0, 'corners-ordered-as-text',
+                                f'the {fld} of the {which} cell is element {pos_} of `{ast.unparse(call_)[:60]}`: the two corner columns are '
+                                f'put in order by comparing their letters as text, which is not the column order ("AA" sorts before "B"), '
+                                f'so an area such as B1:AA5 gets its corners exchanged', loc=loc)
+                        continue
+                    raise AnalysisError('C02.R1', f'{construct0}: the corner coordinates are re-ordered with `{ast.unparse(call_)[:50]}`')
+                idxs, fallback, other = _value_indices(operand)
                 if other:
                     raise AnalysisError('C02.R1', f'{construct0}: unmodelled operand `{ast.unparse(other[0])[:40]}`')
                 if fld == 'title':
